@@ -41,6 +41,8 @@ def run(ctx):
         if b in region and c and c.startswith("bin::") and c not in OPENERS:
             if ctx.cg.reachable([c]) & set(OPENERS):
                 opens.append((b, c))
+    from ..stages import adhoc_fns, adhoc_in_call
+    adhoc = adhoc_fns(ctx.prog)
     for ob, oc in opens:
         ctx.instance(1, {"open_site": sp_file_line(main.term(ob).get("sp")), "callee": short(oc)})
         after = main.reachable(ob) - {ob}
@@ -53,6 +55,10 @@ def run(ctx):
             if c in STAGES or c in sa.may:
                 bad.append((b, c))
                 continue
+            w = adhoc_in_call(ctx.prog, adhoc, t)
+            if w:
+                bad.append((b, w + " (constructs an error of its own)"))
+                continue
             # a closure / fn item the callee may invoke (lazy `map(|s| s.emit())` consumed after the open)
             for cl in t["f"].get("closures", []):
                 nm = cl[3:] if cl.startswith("fn:") else cl
@@ -62,8 +68,8 @@ def run(ctx):
                   "no stage-reaching call reachable from the open site")
         for b, c in bad:
             p = main.path(ob, {b})
-            ctx.violation("after-open|callee=%s" % short(c), sp_file_line(main.term(b).get("sp")),
-                          "`%s` can fail with an assembler error after the destination was opened/truncated at %s "
+            ctx.violation("after-open|callee=%s" % short(c.split(" (")[0]), sp_file_line(main.term(b).get("sp")),
+                          "`%s` can fail with an assembler-level error after the destination was opened/truncated at %s "
                           "(path lines %s): a failure at statement k leaves a partial object file behind"
                           % (short(c), sp_file_line(main.term(ob).get("sp")), main.path_lines(p)))
     ctx.finish_rule()
